@@ -54,23 +54,31 @@ Print Assumptions C01_nul_padded_string_refuted.
    sec < 2^32 - 2) decodes to a double that pack writes back as a stamp decoding to the same double. *)
 Definition C01_ts_projection_full : Prop := Codec_ts_projection_full.
 
+(* PROVED IN FULL.  Sentinel stamps and whole seconds by integer arithmetic; the branch 0 < ns < 10^9 over the reals
+   (Proofs/CodecTsRealP.v): the integer operations of Models/CodecTs.v are shown to be Flocq's round-to-nearest-even
+   FLX(53) operations, then (a) a whole-number result is exact, (b) below 2^23 s the doubles are closer than a
+   nanosecond, so pack recovers exactly (sec, ns), (c) from 2^23 s on the doubles are >= 2^-29 s apart and whatever
+   nanosecond count pack writes is within 0.5000002 ns of the fractional part, inside half a spacing, so unpack rounds
+   back to the same double.  Uses the axioms of Coq's classical real numbers (printed below). *)
+Theorem C01_ts_projection : C01_ts_projection_full.
+Proof. exact Codec_ts_projection_holds. Qed.
+Print Assumptions C01_ts_projection.
+
 (* Round trip for every well-formed description WITH Timestamp fields, for every canonical input whose stamps lie in
-   that domain ([Codec_parse_dom] succeeds exactly on those) — under the projection law, which is proved below only for the
-   sentinel branch and otherwise EVALUATED on a generated grid (Generated/CodecTsCases.v), not proved. *)
-Theorem C01_codec_roundtrip_timestamps_partial : C01_ts_projection_full -> forall d, Codec_wf d = true ->
+   that domain ([Codec_parse_dom] succeeds exactly on those) - unconditional now that the projection law is proved. *)
+Theorem C01_codec_roundtrip_timestamps : forall d, Codec_wf d = true ->
   forall b e n, Codec_bytes_ok b = true -> Codec_parse_dom d b = Some (e, n) ->
   Codec_parse d b = Some (e, n) /\ Codec_roundtrip_at d b e n.
-Proof. exact Codec_roundtrip_ts. Qed.
-Print Assumptions C01_codec_roundtrip_timestamps_partial.
+Proof. exact Codec_roundtrip_ts_full. Qed.
+Print Assumptions C01_codec_roundtrip_timestamps.
 
-(* proved part of the projection law: stamps with a sentinel field (they decode to NaN and are written back as the
-   sentinel pair) and stamps with a whole number of seconds (ns = 0, all 2^32 - 2 of them: the decode is exact).
-   Missing for the full statement: the branch 0 < ns < 10^9, a binary64 rounding argument. *)
-Theorem C01_ts_projection_partial : forall z, 0 <= z < 2 ^ 64 ->
+(* the part of the projection law that needs no real-number axioms (closed under the global context): sentinel stamps
+   and all 2^32 - 2 whole-second stamps *)
+Theorem C01_ts_projection_axiom_free_part : forall z, 0 <= z < 2 ^ 64 ->
   ((Codec_ts_sec z =? ts_invalid) || (Codec_ts_ns z =? ts_invalid) = true \/ (Codec_ts_ns z = 0 /\ Codec_ts_sec z < ts_invalid - 1)) ->
   Codec_aval_ok U64 ATimestamp (Codec_ts_dec z).
 Proof. exact Codec_ts_projection_partial. Qed.
-Print Assumptions C01_ts_projection_partial.
+Print Assumptions C01_ts_projection_axiom_free_part.
 
 (* the code before the repair (truncation): the law is false; the witness is the finding (replayed on the implementation) *)
 Theorem C01_ts_projection_legacy_refuted :
@@ -145,11 +153,11 @@ Theorem C01_table_partition :
                          + length (filter (fun p => Codec_uses_ts (snd p)) py_descriptions))%nat.
 Proof. exact Codec_table_partition. Qed.
 Print Assumptions C01_table_partition.
-Theorem C01_table_roundtrip_timestamps_partial : C01_ts_projection_full -> forall i d, In (i, d) py_descriptions ->
+Theorem C01_table_roundtrip_timestamps : forall i d, In (i, d) py_descriptions ->
   forall b e n, Codec_bytes_ok b = true -> Codec_parse_dom d b = Some (e, n) ->
   Codec_parse d b = Some (e, n) /\ Codec_roundtrip_at d b e n.
-Proof. exact Codec_table_roundtrip_ts. Qed.
-Print Assumptions C01_table_roundtrip_timestamps_partial.
+Proof. exact Codec_table_roundtrip_ts_full. Qed.
+Print Assumptions C01_table_roundtrip_timestamps.
 Theorem C01_table_offsets : forall i d, In (i, d) py_descriptions ->
   (Codec_nogreedy d = true -> forall b e n, Codec_parse d b = Some (e, n) ->
      forall pre post, Codec_parse_at d (length pre) (pre ++ b ++ post) = Some (e, n)) /\
